@@ -292,7 +292,7 @@ def theorem_stage(ctx):
     A failure here is 'theorem broken' and becomes a violation."""
     # build only what this property's theorem file needs (a broken file of another property must not
     # raise an alarm here); `./check setup` builds everything
-    ok, log = coq_make(["Props/Properties_%s.vo" % ctx.pid])
+    ok, log = coq_make(["Props/Properties_%s.vo" % ctx.pid, "Base/Tie.vo", "Base/RBase.vo"] + list(getattr(ctx, "extra_targets", [])))
     if not ok:
         ctx.fail("theorem", "make", log[-1500:], site="coq-build", fingerprint="make")
         return False
